@@ -41,7 +41,7 @@ ASSUMPTIONS = ["in-process histories call cmd_* directly on a real server object
                "TCP descriptor bookkeeping is judged by the server's _connected_sockets table (when present) and by the "
                "number of entries in /proc/self/fd after gc.collect()"]
 SHARDS = {"quick": 1, "thorough": 16}
-MIN_DISTINCT = {"quick": 1500, "thorough": 100000}
+MIN_DISTINCT = {"quick": 3000, "thorough": 100000}
 
 PRUNE = 1000
 HOSTS = ["10.0.0.1", "10.0.0.2", "registry-host-c"]
